@@ -1244,12 +1244,56 @@ func c12DrawPacket(t *rapid.T, label string, s *c12State, c *c12Cands, target *p
 		restricted[i] = c12Restrict(target, i)
 	}
 	m := func(dim int) bool { return refpol.Match(restricted[dim], &p, sets) }
-	p.Proto = c12Pick(t, label+"-proto", c.protos, func(x uint8) bool { p.Proto = x; return m(0) })
-	p.Src = c12Pick(t, label+"-src", c.src, func(x netip.Addr) bool { p.Src = x; return m(1) })
-	p.Dst = c12Pick(t, label+"-dst", c.dst, func(x netip.Addr) bool { p.Dst = x; return m(2) })
+
+	// "Member mode": put one side of the packet exactly on a member of an IP+port set the rule
+	// refers to (named port, negated named port, service), so that positive and negated set
+	// clauses are probed on their members and not only around them.
+	var pinProto, pinSrc, pinDst bool
+	type ref struct {
+		src bool
+		id  string
+	}
+	var refs []ref
+	for _, id := range append(append([]string{}, target.SrcNamedPortIpSetIds...), target.NotSrcNamedPortIpSetIds...) {
+		refs = append(refs, ref{true, id})
+	}
+	for _, id := range append(append(append([]string{}, target.DstNamedPortIpSetIds...), target.NotDstNamedPortIpSetIds...), target.DstIpPortSetIds...) {
+		refs = append(refs, ref{false, id})
+	}
+	if len(refs) > 0 && c12Chance(t, label+"-member-mode", 45) {
+		r := refs[c12Idx(t, label+"-member-ref", len(refs))]
+		var members []string
+		for _, mem := range s.set(r.id).Members {
+			if a, _, _ := c12ParseIPPort(mem); a.Is6() == (s.ipv == 6) {
+				members = append(members, mem)
+			}
+		}
+		if len(members) > 0 {
+			a, pr, po := c12ParseIPPort(members[c12Idx(t, label+"-member", len(members))])
+			p.Proto, pinProto = pr, true
+			if r.src {
+				p.Src, p.SrcPort, pinSrc = a, po, true
+			} else {
+				p.Dst, p.DstPort, pinDst = a, po, true
+			}
+		}
+	}
+	if !pinProto {
+		p.Proto = c12Pick(t, label+"-proto", c.protos, func(x uint8) bool { p.Proto = x; return m(0) })
+	}
+	if !pinSrc {
+		p.Src = c12Pick(t, label+"-src", c.src, func(x netip.Addr) bool { p.Src = x; return m(1) })
+	}
+	if !pinDst {
+		p.Dst = c12Pick(t, label+"-dst", c.dst, func(x netip.Addr) bool { p.Dst = x; return m(2) })
+	}
 	if refpol.HasPorts(p.Proto) || p.Proto == refpol.ProtoUDPLite {
-		p.SrcPort = c12Pick(t, label+"-sport", c.sport, func(x uint16) bool { p.SrcPort = x; return m(3) })
-		p.DstPort = c12Pick(t, label+"-dport", c.dport, func(x uint16) bool { p.DstPort = x; return m(4) })
+		if !pinSrc {
+			p.SrcPort = c12Pick(t, label+"-sport", c.sport, func(x uint16) bool { p.SrcPort = x; return m(3) })
+		}
+		if !pinDst {
+			p.DstPort = c12Pick(t, label+"-dport", c.dport, func(x uint16) bool { p.DstPort = x; return m(4) })
+		}
 	}
 	if (s.ipv == 4 && p.Proto == 1) || (s.ipv == 6 && p.Proto == 58) {
 		p.ICMPType = c12From(t, label+"-icmptype", []uint8{0, 3, 8, 128})
@@ -1552,7 +1596,7 @@ func TestVerifC12DataplanesAgree(t *testing.T) {
 	rec := ev.New("C12", "dataplanes",
 		"each case: IP version, mark-bit layout, flow logs, deny action, BPF jump options, an IP-set universe (selector NET sets incl. other-family members and /25../31 CIDRs, service IP+port sets, named-port sets) and a workload endpoint with 0-3 tiers (default action Deny/Pass, 1-7 policies each incl. staged kinds, ingress/egress types, selector groups) and 0-3 profiles; "+
 			"rules limited to what iptables, nftables, BPF and the app-policy checker all support (protocol by name/number or negated, src/dst nets and negated nets, ports and negated ports, IP sets and negated IP sets, service sets on egress, named ports; allow/deny/pass in policies, allow/deny in profiles); "+
-			"12 (thorough 24) probe packets per case, both directions, drawn on the boundaries of the state's own fields and steered to match a chosen rule; every packet goes through all four implementations. "+
+			"12 (thorough 24) probe packets per case, both directions, drawn on the boundaries of the state's own fields (CIDR edges +-1, port range ends +-1, set members) and steered to match a chosen rule or to sit exactly on a member of an IP+port set it refers to; every packet goes through all four implementations. "+
 			"Non-trivial = at least one packet is decided by an explicit rule or after a pass (not a plain no-match default deny); distinct = version/tier/profile/policy-count/staged/grouping shape plus the set of decision kinds",
 		"differential oracle: no reference decides; refpol only labels the odd one out and classifies cases",
 		"nfsim executes the rendered iptables/nft text, bpfvm executes the assembled BPF program; the harness replicates groupPolicies, extractTiers/extractProfiles and per-family IP-set member filtering",
